@@ -139,6 +139,7 @@ def generate(rng, tier, index):
         return rng.choice(cands)
 
     files, decoys = {}, {}
+    dash = [False]
     # ---- configuration -------------------------------------------------------
     cfg_home = rng.choice(dirs[1:4])
     nres = rng.randint(1, 5)
@@ -147,6 +148,13 @@ def generate(rng, tier, index):
         so it may even begin or end with a blank)."""
         n = _name(rng, used, ext)
         r = rng.random()
+        if rng.random() < 0.03 and "-" not in used:
+            # a file called '-' (some commands take that for the standard
+            # input; as a file name it is a file name), loaded with its
+            # directory as the current one
+            used.add("-")
+            dash[0] = True
+            return "-"
         if r < 0.12:
             n = n + " "
         elif r < 0.17:
@@ -283,9 +291,31 @@ def generate(rng, tier, index):
     top_lines.append("</schema>")
     files[sch["top"]] = {"xml": top_lines,
                          "extends": _spell(rng, sch_home, b1)}
-    sch_files = [p for p in (sch["top"], b1, b2, c1, c1b) if p]
+    c1c = None
+    if have_c1 and rng.random() < 0.2:
+        # a second imported file whose name differs from the first one's in
+        # letter case only (another file, other types): URLs and the names
+        # behind them are case-sensitive
+        base = os.path.basename(c1)
+        if base.swapcase() != base:
+            c1c = os.path.join(os.path.dirname(c1), base.swapcase())
+            if c1c in files:
+                c1c = None
+    if c1c:
+        files[c1c] = {"xml": ["<schema>", '  <sectiontype name="ctc">',
+                              '    <key name="cvc" datatype="integer" '
+                              'default="5"/>', "  </sectiontype>",
+                              "</schema>"], "extends": None}
+        at = max(k for k, ln in enumerate(top_lines)
+                 if isinstance(ln, dict) and "import-src" in ln)
+        top_lines.insert(at + 1, {"import-src": _spell(rng, sch_home, c1c)})
+        types.append("ctc")
+    sch_files = [p for p in (sch["top"], b1, b2, c1, c1b, c1c) if p]
     # ---- decoys ------------------------------------------------------------------
     cwd = rng.choice(dirs + dirs[1:4] + ["/"])
+    if dash[0]:
+        cwd = (cfg_home if os.path.basename(cfg_order[0]) == "-"
+               else sch_home)
     targets = [(p, "conf") for p in cfg_order[1:]] + \
               [(p, "xml") for p in sch_files[1:]]
     for p, kind in targets:
